@@ -56,7 +56,7 @@ def worker_main(prop_id, tier, seed, shard, nshards, out_path, runs, max_seconds
                "seed_corpus": state.get("seed_corpus", 0)}
         res.update(ctx.result())
         res["wall"] = time.time() - t0
-        with open(out_path + ".tmp", "w") as f:
+        with open(out_path + ".tmp", "w", encoding="utf-8") as f:
             json.dump(res, f, default=str)
         os.replace(out_path + ".tmp", out_path)
         common.cleanup_scratch()
